@@ -14,6 +14,11 @@ From Coq Require Import Permutation.
    the digraph {u -> v | v neighbour of u, T u v} with the initially recovered nodes removed;
    S + I + R = N; the history of v (full data) has an I entry at tmin + k iff v is in I_k
    and an R entry exactly one step later (C12_history_entries). *)
+(* Scope: test_recovery = None and initial_infecteds given.  FULL statement of the property also
+   covers a user recovery test (node stays infectious until the test succeeds; for a rule that is
+   a function of the pair the infection times are still the BFS distances) and the rho path
+   (initial nodes drawn by random.sample): those two are validated by the correspondence and by
+   the independent BFS / generation oracle of harness/disc_lib.py only -- not proved here. *)
 Theorem C12_dsir_bfs : forall g tt pick ord i0 r0o tmin tmax full fuel,
   let r0 := opt_list r0o in let T := T0 tt in
   wf_inputb g i0 r0 = true -> perm_oracle ord -> (length (gnodes g) < fuel)%nat ->
